@@ -53,6 +53,16 @@ class C02(Prop):
                     continue  # a modifier without its operands is not a well-formed program
                 prog = s.format(f)
                 g.append(self.compile_ground(f"C02/compiles[{prog}]", prog))
+        # names, parameters and arities: what stands in a name / parameter / arity branch is program-chosen text too
+        texts = ["0", "00", "01", "007", "10", "2", "٣", "a", "ab", "a1", "_x", "A_b", "*", "é", "1a"]
+        for t in texts:
+            for form in ("@f:{}|+;", "@f:{}:a|+;", "@f:a:{}|$;", "@{}|1;", "@{}:a|←a;", "({}|n)", "λ{}|+;", "→{} ←{}", "@f:{}|+;1 2 @f;"):
+                if form.startswith("λ") and not t.isdigit():
+                    continue  # a lambda's first branch is its arity only when it is a number
+                if form.startswith("→") and not t.replace("_", "a").isalnum():
+                    continue
+                prog = form.replace("{}", t)
+                g.append(self.compile_ground(f"C02/compiles[{prog}]", prog))
         for s1, s2 in itertools.product(slots[:19], slots[:19]):
             for f in ("X", "x", "+"):
                 prog = s1.format(s2.format(f))
